@@ -87,7 +87,8 @@
 #define DS_WRAPPED_FUNCTIONS                                                                                           \
     "pthread_create pthread_join pthread_detach pthread_mutex_lock pthread_mutex_trylock pthread_mutex_unlock "       \
     "pthread_mutex_destroy pthread_cond_wait pthread_cond_timedwait pthread_cond_signal pthread_cond_broadcast "      \
-    "pthread_cond_destroy pthread_once clock_gettime nanosleep"
+    "pthread_cond_destroy pthread_once clock_gettime nanosleep "                                                      \
+    "pthread_attr_init pthread_attr_setstacksize pthread_attr_getstacksize pthread_attr_setaffinity_np"
 
 #define DS_MAX_THREADS 64
 #define DS_SPURIOUS_FLAG 0x4000
@@ -165,6 +166,12 @@ void ds_yield(int tag); /* explicit schedule point */
 void ds_inject_create_failure(long n, int err);
 /* the next `count` pthread_create calls made by the CALLING thread fail with err (ties a failure to one launch) */
 void ds_fail_next_create(int count, int err);
+
+/* the next call of pthread_attr_<which> made by the CALLING thread returns err without touching the attribute object
+ * (one-shot; the pthread_attr_* wrappers are not schedule points and produce no event) */
+enum { DS_ATTR_INIT = 0, DS_ATTR_SETSTACKSIZE, DS_ATTR_GETSTACKSIZE, DS_ATTR_SETAFFINITY, DS_ATTR_COUNT };
+void ds_fail_next_attr(int which, int err);
+int ds_attr_fault_count(void); /* injected pthread_attr_* failures actually hit: by the calling thread (inside ds_run), in the last run (outside) */
 
 size_t ds_event_count(void);
 const struct ds_event *ds_event_at(size_t i);
